@@ -339,7 +339,12 @@ class MessageManager(ClientLike):
                     )
 
         else:
-            module.mod_id = self.assign_module_id()
+            try:
+                module.mod_id = self.assign_module_id()
+            except RuntimeError:
+                # no dynamic module id left: refuse this connection only
+                self.remove_module(module)
+                return False
 
         module.connected = True
 
